@@ -3,6 +3,7 @@ package props
 import (
 	"context"
 	"fmt"
+	"math"
 	"math/bits"
 	"os"
 	"sort"
@@ -39,6 +40,10 @@ type c19Dir struct {
 	min     uint64 // lowest sequence number the stream can have (1)
 	prefix  string
 	altFmt  bool // changeset files: vary Z / +00:00 and same-number state files
+	// secs, when set, gives T_n = base + secs[n-1] seconds for n = 1..len(secs) (skewed
+	// timestamp assignments of large directories); missing marks the absent files.
+	secs    []int64
+	missing map[uint64]bool
 }
 
 func c19Mix(a, b uint64) uint64 {
@@ -71,6 +76,16 @@ func c19RegularStep(stream string) int64 {
 // whole seconds (their state files cannot carry more), the changeset stream nanoseconds.
 func (d *c19Dir) timeOf(n uint64) time.Time {
 	base := c19Base[d.stream]
+	if d.secs != nil {
+		if n < 1 || n > uint64(len(d.secs)) {
+			return time.Time{}
+		}
+		t := base.Add(time.Duration(d.secs[n-1]) * time.Second)
+		if d.stream == srv.Changesets {
+			t = t.Add(time.Duration(c19Mix(d.tsid, n) % 1_000_000_000))
+		}
+		return t
+	}
 	var jit, nanos int64
 	if d.tsid != 0 {
 		base = base.Add(time.Duration(d.tsid%2500) * 24 * time.Hour).Add(time.Duration(d.tsid>>12%86400) * time.Second)
@@ -122,6 +137,14 @@ func (d *c19Dir) stateFile(n uint64) srv.StateFile {
 }
 
 func (d *c19Dir) serverDir() *srv.Dir {
+	if d.secs != nil {
+		return &srv.Dir{Stream: d.stream, Current: d.current(), Lookup: func(n uint64) (srv.StateFile, bool) {
+			if n < 1 || n > uint64(len(d.secs)) || d.missing[n] {
+				return srv.StateFile{}, false
+			}
+			return d.stateFile(n), true
+		}}
+	}
 	sd := &srv.Dir{Stream: d.stream, States: make(map[uint64]srv.StateFile, len(d.present)), Current: d.current()}
 	for _, n := range d.present {
 		sd.States[n] = d.stateFile(n)
@@ -191,6 +214,13 @@ func c19PosClass(q, k int) string {
 
 // c19Expected is the reference: the smallest present n with T_n >= t, else the newest.
 func (d *c19Dir) expected(t time.Time) uint64 {
+	if d.secs != nil { // large directory: timestamps increase, so bisect the present list
+		i := sort.Search(len(d.present), func(i int) bool { return !d.timeOf(d.present[i]).Before(t) })
+		if i < len(d.present) {
+			return d.present[i]
+		}
+		return d.current()
+	}
 	for _, n := range d.present {
 		if !d.timeOf(n).Before(t) {
 			return n
@@ -383,7 +413,7 @@ func c19Lookup(res *fw.Result, p *srv.Planet, sd *srv.Dir, d *c19Dir, q, v int, 
 	res.SetMax("budget_used_permille", int64(count*1000/budget))
 	stepped := 0
 	for n := range perSeq {
-		if _, ok := sd.States[n]; !ok {
+		if _, ok := sd.Get(n); !ok {
 			stepped++
 		}
 	}
@@ -440,6 +470,13 @@ func c19Cases(tier string, seed uint64) []fw.Case {
 	for i := 0; i < nOff; i++ {
 		cs = append(cs, fw.Case{Kind: "offset", Seed: gen.Sub(seed, "c19off", i), P: map[string]int64{"stream": int64(i % 4), "site": int64(i / 4 % len(c19Sites))}})
 	}
+	nSkew := 32
+	if tier == "thorough" {
+		nSkew = 480
+	}
+	for i := 0; i < nSkew; i++ {
+		cs = append(cs, fw.Case{Kind: "skew", Seed: gen.Sub(seed, "c19skew", i), P: map[string]int64{"stream": int64(i % 4), "profile": int64(i / 4 % len(c19SkewProfiles))}})
+	}
 	for i := 0; i < nFmt; i++ {
 		cs = append(cs, fw.Case{Kind: "format", Seed: gen.Sub(seed, "c19fmt", i), P: map[string]int64{"stream": int64(i % 4)}})
 	}
@@ -460,6 +497,8 @@ func c19Exec(c fw.Case) *fw.Result {
 		c19ExecRand(res, p, stream, c.Seed)
 	case "offset":
 		c19ExecOffset(res, p, stream, c.Seed, int(c.Int("site")))
+	case "skew":
+		c19ExecSkew(res, p, stream, c.Seed, int(c.Int("profile")))
 	case "format":
 		c19ExecFormat(res, p, stream, c.Seed)
 	case "data":
@@ -694,6 +733,136 @@ func c19ExecOffset(res *fw.Result, p *srv.Planet, stream string, seed uint64, si
 	res.Sample = sample
 }
 
+// c19SkewProfiles are the skewed timestamp assignments of the large directories: the
+// sequence numbers are dense (gap-free or nearly so) but wall-clock time is spread very
+// unevenly over them, which is what defeats a search that guesses positions from timestamps.
+var c19SkewProfiles = []string{"pause-newest", "pause-oldest", "slow-start", "exp-up", "exp-down", "two-clusters", "bursts", "steady"}
+
+// c19SkewSecs gives the seconds since the stream's base for states 1..n. It depends only on
+// its arguments, so (profile, n, pause, aux) names the timestamp assignment exactly.
+func c19SkewSecs(profile string, n int, pause int64, aux uint64) []int64 {
+	secs := make([]int64, n)
+	for i := range secs {
+		secs[i] = 60 * int64(i+1)
+	}
+	add := func(from int, by int64) { // shift states from index from on
+		for i := from; i < n; i++ {
+			secs[i] += by
+		}
+	}
+	const k = 20.0
+	switch profile {
+	case "pause-newest": // replication stood still before the newest aux%3+1 states
+		add(n-1-int(aux%3), pause)
+	case "pause-oldest": // the first aux%3+1 states are much older than the rest
+		add(1+int(aux%3), pause)
+	case "slow-start": // the first states of a feed are far apart (cf. minute 1-3)
+		add(1, pause)
+		add(2, pause*3/4)
+		add(3, pause/4)
+	case "exp-up": // ever longer intervals
+		for i := range secs {
+			secs[i] = 2*int64(i+1) + int64(float64(pause)*math.Expm1(k*float64(i+1)/float64(n))/math.Expm1(k))
+		}
+	case "exp-down": // ever shorter intervals
+		for i := range secs {
+			secs[i] = 2*int64(i+1) + pause - int64(float64(pause)*math.Expm1(k*float64(n-1-i)/float64(n))/math.Expm1(k))
+		}
+	case "two-clusters": // two dense clusters far apart, split at 1/2, 1/10 or 9/10
+		add(n*[]int{5, 1, 9}[aux%3]/10, pause)
+	case "bursts": // bursts of states separated by pauses of varying length
+		b := n / int(5+aux%36)
+		for j := b; j < n; j += b {
+			add(j, pause/int64(1+c19Mix(aux, uint64(j))%8)/8)
+		}
+	}
+	return secs
+}
+
+// skew: large gap-free and sparse-gap ranges (1 000 … 100 000 states, the server computes
+// the state files) with skewed timestamp assignments; queries in the dense parts, at both
+// ends, and around and inside the pauses. The oracle is the usual one: exact answer and the
+// request budget, which is logarithmic in the range however the timestamps are spread.
+func c19ExecSkew(res *fw.Result, p *srv.Planet, stream string, seed uint64, pi int) {
+	r := gen.New(seed, "c19skew")
+	profile := c19SkewProfiles[pi%len(c19SkewProfiles)]
+	var sample any
+	for di := 0; di < 2; di++ {
+		n := r.Pick(1000, 1024, 2000, 5000, 10_000, 30_000, 65_536, 100_000)
+		if r.Chance(0.4) {
+			n = r.Range(1000, 100_000)
+		}
+		pause := int64(r.Pick(30, 365, 3650)) * 86400
+		aux := uint64(r.Intn(1000))
+		d := &c19Dir{stream: stream, min: 1, step: 60, secs: c19SkewSecs(profile, n, pause, aux), missing: map[uint64]bool{}}
+		d.tsid = c19Mix(uint64(n)<<20^uint64(pause), aux) | 1
+		switch r.Intn(4) {
+		case 0: // scattered single files
+			for g := r.Range(1, 20); g > 0; g-- {
+				d.missing[uint64(r.Range(2, n-1))] = true
+			}
+		case 1: // runs next to the probes of a bisection
+			c19GapRuns(r, d.missing, 2, uint64(n), uint64(r.Range(2, n)))
+		}
+		delete(d.missing, 1)
+		delete(d.missing, uint64(n))
+		var miss []uint64
+		for x := uint64(1); x <= uint64(n); x++ {
+			if d.missing[x] {
+				miss = append(miss, x)
+			} else {
+				d.present = append(d.present, x)
+			}
+		}
+		sd := d.serverDir()
+		kk := len(d.present)
+		// where the time skew sits: the widest interval between neighbouring present states
+		wide, wideAt := int64(0), 0
+		for i := 1; i < kk; i++ {
+			if g := d.secs[d.present[i]-1] - d.secs[d.present[i-1]-1]; g > wide {
+				wide, wideAt = g, i
+			}
+		}
+		idx := map[int]bool{}
+		for _, i := range []int{0, 1, 2, 3, kk / 4, kk / 2, 3 * kk / 4, kk - 5, kk - 4, kk - 3, kk - 2, kk - 1,
+			wideAt - 3, wideAt - 2, wideAt - 1, wideAt, wideAt + 1, r.Intn(kk), r.Intn(kk)} {
+			if i >= 0 && i < kk {
+				idx[i] = true
+			}
+		}
+		qs := map[int]bool{0: true, 2 * kk: true}
+		for i := range idx {
+			if r.Chance(0.5) {
+				qs[2*i+1] = true
+			}
+			if i+1 < kk {
+				qs[2*i+2] = true
+			}
+		}
+		var order []int
+		for q := range qs {
+			order = append(order, q)
+		}
+		sort.Ints(order)
+		for _, q := range order {
+			v := r.Intn(3)
+			key := fmt.Sprintf("C19/lookup/stream=%s/skew=%s/pause=%d/aux=%d/N=%d/missing=%s/t=q%d.%d", stream, profile, pause, aux, n, c19SetString(miss), q, v)
+			obs := c19Lookup(res, p, sd, d, q, v, key, "skew-"+profile, false)
+			obs.Present = fmt.Sprintf("1-%d without {%s}", n, c19SetString(miss))
+			if sample == nil && q > 2*kk-8 {
+				_, obs.Log, _, _ = p.Observed()
+				if len(obs.Log) > 40 {
+					obs.Log = obs.Log[:40]
+				}
+				sample = map[string]any{"profile": profile, "pause_s": pause, "aux": aux, "widest_interval_s": wide, "lookup": obs}
+			}
+		}
+		res.Put("skew_profiles", profile)
+		res.SetMax("skew_range", int64(n))
+	}
+	res.Sample = sample
+}
+
 var c19EdgeTimes = []time.Time{
 	time.Date(2016, 7, 16, 6, 14, 2, 0, time.UTC),
 	time.Date(2016, 7, 2, 22, 46, 1, 422137422, time.UTC),
@@ -922,7 +1091,7 @@ func init() {
 			"(current always present) x every query position (before first, at each, between each, after last) — independent of the seed. " +
 			"rand: ranges up to 400 with random density and gap runs next to the probe sequence of a binary search; offset: windows at high " +
 			"offsets crossing directory levels with everything below missing; format: single state files in each documented layout; data: " +
-			"sequence-numbered data files. Signature = kind/stream/log2(range)/missing-count class/query position class/first-state present or " +
+			"sequence-numbered data files; skew: gap-free and sparse-gap ranges of 1 000 to 100 000 states with skewed timestamp assignments (pauses, exponential spacing, clusters, bursts). Signature = kind/stream/log2(range)/missing-count class/query position class/first-state present or " +
 			"missing (prefix-only or scattered gaps); a signature is non-trivial when a lookup was actually executed against the fake server.",
 		Assumptions: []string{
 			"The fake server models the planet layout from its documentation: /replication/<stream>/state.txt (state.yaml for changesets), NNN/NNN/NNN.state.txt, .osc.gz / .osm.gz; timestamps strictly increase with the sequence number; the current state is the newest present file.",
